@@ -27,7 +27,7 @@ BCT = ["NONE", "BOUND", "CLAMPED"]
 def gen_descs(ctx):
   rng = ctx.rng
   out = []
-  for _ in range(ctx.n(330, 6000)):
+  for _ in range(ctx.n(600, 6000)):
     mono = rng.choice([-1, 0, 1, 1])
     conv = rng.choice([-1, 0, 0, 1])
     nk = rng.randint(2, 7)
